@@ -330,6 +330,8 @@ def truthy(x):
         return Const(bool(x != 0))
     if isinstance(x, Tup):
         return Const(len(x.items) > 0)
+    if isinstance(x, Obj) and getattr(x, 'truth', None) is not None:
+        return Const(x.truth)
     if isinstance(x, DictV) and not x.has_symbolic():
         return Const(len(x.keys()) > 0)
     return BoolT('truthy', (x,))
@@ -855,8 +857,46 @@ class Evaluator:
             sts = mi.assigns[name]
             if len(sts) == 1 and isinstance(sts[0], ast.Assign):
                 return self.eval_in_module(sts[0].value, mi.name)
+            # tables built by several module-level statements: partial evaluation (TB)
+            from .tb import Opaque, tables
+            try:
+                pv = tables(self.m, mi.name).env.get(name)
+            except AnalysisError:
+                pv = None
+            tv = self.from_py(pv) if pv is not None else None
+            if tv is not None:
+                return tv
             return App('global:' + mi.name + '.' + name)
         return ExtRef(v)
+
+    def from_py(self, v):
+        from .tb import Opaque
+        if isinstance(v, Opaque):
+            return None
+        if isinstance(v, dict):
+            d = {}
+            for k, x in v.items():
+                t = self.from_py(x)
+                if t is None or not isinstance(k, (str, int)):
+                    return None
+                d[k] = t
+            return DictV([d])
+        if isinstance(v, tuple) and len(v) == 2 and v[0] == 'cls' and isinstance(v[1], str):
+            if self.m.has_cls(v[1]):
+                ci = self.m.cls(v[1])
+                return ClassRef(ci, ci.name)
+            return None
+        if isinstance(v, (list, tuple)):
+            items = [self.from_py(x) for x in v]
+            if any(i is None for i in items):
+                return None
+            return Tup(tuple(items), 'list' if isinstance(v, list) else 'tuple')
+        if isinstance(v, bool) or v is None or isinstance(v, str):
+            return Const(v)
+        if isinstance(v, (int, float)):
+            return num(v)
+        return None
+
 
     def eval_in_module(self, node, modname):
         fi = FuncInfo('<module>', f'{modname}:<module>', modname, None, None, '')
@@ -998,15 +1038,30 @@ class Evaluator:
                         return Unknown('dict comprehension with symbolic key')
                     out[k.v] = self.expr(n.value, e2, fr)
                 return DictV([out])
-        if isinstance(n, ast.ListComp) and len(n.generators) == 1 and not n.generators[0].ifs:
-            g = n.generators[0]
-            items = _iter_items(self.expr(g.iter, env, fr))
-            if items is not None:
-                out = []
+        if isinstance(n, ast.ListComp):
+            out = []
+
+            def rec(gi, e):
+                if gi == len(n.generators):
+                    out.append(self.expr(n.elt, e, fr))
+                    return True
+                g = n.generators[gi]
+                items = _iter_items(self.expr(g.iter, e, fr))
+                if items is None:
+                    return False
                 for it in items:
-                    e2 = dict(env)
+                    e2 = dict(e)
                     self.assign(g.target, it, e2, fr)
-                    out.append(self.expr(n.elt, e2, fr))
+                    keep = True
+                    for cnd in g.ifs:
+                        c = truthy(self.expr(cnd, e2, fr))
+                        if not isinstance(c, Const):
+                            return False
+                        keep = keep and c.v
+                    if keep and not rec(gi + 1, e2):
+                        return False
+                return True
+            if rec(0, dict(env)):
                 return Tup(tuple(out), 'list')
         return Unknown(f'{type(n).__name__} over symbolic iterable')
 
@@ -1481,6 +1536,21 @@ class Evaluator:
                            if self.m.lookup(c, '_params')):
                     return Const(False)
                 return Const(False) if not self.m.is_abstract(o.ci) else App('hasattr', tuple(a))
+        if name in ('itertools.cycle',) and len(a) == 1 and isinstance(a[0], (Tup, Const)):
+            src = a[0] if isinstance(a[0], Tup) else Tup(tuple(Const(ch) for ch in a[0].v))
+            return App('iter:cycle', (src,))
+        if name in ('itertools.chain',) and all(isinstance(x, Tup) or (isinstance(x, App) and x.name.startswith('iter:')) for x in a):
+            return App('iter:chain', tuple(a))
+        if name == 'zip' and a and not any(k for k in kwargs if k != 'strict'):
+            n_ = _finite_len(a)
+            if n_ is not None:
+                return Tup(tuple(Tup(tuple(_nth(x, i) for x in a)) for i in range(n_)), 'list')
+        if name == 'enumerate' and len(a) == 1:
+            items = _iter_items(a[0])
+            if items is not None:
+                return Tup(tuple(Tup((sp.Integer(i), it)) for i, it in enumerate(items)), 'list')
+        if name == 'range' and a and all(isinstance(x, sp.Integer) for x in a):
+            return Tup(tuple(sp.Integer(i) for i in range(*[int(x) for x in a])), 'list')
         if name in ('list', 'tuple') and len(a) == 1:
             items = _iter_items(a[0])
             if items is not None:
@@ -1642,6 +1712,39 @@ def _reachable_objs(env, fr):
     if fr.self_obj is not None:
         add(fr.self_obj)
     return out
+
+
+def _finite_len(args):
+    ns = []
+    for x in args:
+        if isinstance(x, Tup):
+            ns.append(len(x.items))
+        elif isinstance(x, App) and x.name == 'iter:cycle':
+            continue
+        elif isinstance(x, App) and x.name == 'iter:chain':
+            if any(isinstance(y, App) and y.name == 'iter:cycle' for y in x.args):
+                continue
+            ns.append(sum(len(y.items) for y in x.args))
+        else:
+            return None
+    return min(ns) if ns else None
+
+
+def _nth(x, i):
+    if isinstance(x, Tup):
+        return x.items[i]
+    if isinstance(x, App) and x.name == 'iter:cycle':
+        src = x.args[0].items
+        return src[i % len(src)]
+    if isinstance(x, App) and x.name == 'iter:chain':
+        for y in x.args:
+            if isinstance(y, Tup):
+                if i < len(y.items):
+                    return y.items[i]
+                i -= len(y.items)
+            else:
+                return _nth(y, i)
+    return Unknown('nth of unknown iterable')
 
 
 def _iter_items(v):
